@@ -20,18 +20,19 @@ const prop = "C04"
 
 // Case is one accessor call on one window, replayable.
 type Case struct {
-	Start    int     `json:"start"`
-	Count    int     `json:"count"`
-	Poisoned bool    `json:"poisoned"`           // payload is a prefix of a larger buffer filled with 0xA5
-	Data     string  `json:"data_hex,omitempty"` // explicit payload (value sweep); empty = the position pattern
-	Default  uint8   `json:"default_order"`
-	Prior    []uint8 `json:"prior_defaults,omitempty"` // WithByteOrder calls made on the view before the one that set Default
-	Acc      string  `json:"accessor"`
-	Addr     int     `json:"addr"`
-	Order    uint8   `json:"order"`
-	Bit      int     `json:"bit"`
-	High     bool    `json:"high"`
-	Len      int     `json:"len"`
+	Start       int     `json:"start"`
+	Count       int     `json:"count"`
+	Poisoned    bool    `json:"poisoned"`           // payload is a prefix of a larger buffer filled with 0xA5
+	Data        string  `json:"data_hex,omitempty"` // explicit payload (value sweep); empty = the position pattern
+	Default     uint8   `json:"default_order"`
+	BareDefault bool    `json:"bare_default,omitempty"`   // the view was given Default without its byte-order bit (a word-order flag alone)
+	Prior       []uint8 `json:"prior_defaults,omitempty"` // WithByteOrder calls made on the view before the one that set Default
+	Acc         string  `json:"accessor"`
+	Addr        int     `json:"addr"`
+	Order       uint8   `json:"order"`
+	Bit         int     `json:"bit"`
+	High        bool    `json:"high"`
+	Len         int     `json:"len"`
 }
 
 type local struct {
@@ -315,13 +316,18 @@ func newWindowFrom(start, count int, poisoned bool, def uint8, d []byte, res *ev
 	if len(prior) > 0 && def == 0 {
 		def = spec.DefaultOrder // "back to the documented default" has to be said explicitly after another order was set
 	}
-	if def != 0 {
+	bare := def == spec.OrdLowWordFirst || def == spec.OrdHighWordFirst
+	if bare {
+		// the library is given the bare flag; what it must then do is read big-endian bytes in the selected word order
+		r.WithByteOrder(packet.ByteOrder(def))
+		def |= spec.OrdBE
+	} else if def != 0 {
 		r.WithByteOrder(packet.ByteOrder(def))
 	} else {
 		def = spec.DefaultOrder
 	}
 	p := append([]byte(nil), d...)
-	return &window{c: Case{Start: start, Count: count, Poisoned: poisoned, Default: def, Prior: prior}, data: d, pristine: p, regs: r, w: spec.Window{Start: start, Wire: p}}
+	return &window{c: Case{Start: start, Count: count, Poisoned: poisoned, Default: def, Prior: prior, BareDefault: bare}, data: d, pristine: p, regs: r, w: spec.Window{Start: start, Wire: p}}
 }
 
 func posClass(c Case) string {
@@ -347,8 +353,11 @@ func posClass(c Case) string {
 }
 
 func (w *window) eval(c Case, res *ev.Result, lc *local) {
+	if w.c.BareDefault && c.Acc[0] == 'S' && c.Order == 0 {
+		return // what a bare word-order flag means for the BYTES of a string is documented nowhere: not demanded
+	}
 	lc.evals++
-	c.Start, c.Count, c.Poisoned, c.Default, c.Data, c.Prior = w.c.Start, w.c.Count, w.c.Poisoned, w.c.Default, w.c.Data, w.c.Prior
+	c.Start, c.Count, c.Poisoned, c.Default, c.Data, c.Prior, c.BareDefault = w.c.Start, w.c.Count, w.c.Poisoned, w.c.Default, w.c.Data, w.c.Prior, w.c.BareDefault
 	o := callAcc(w.regs, c)
 	if !bytes.Equal(w.data, w.pristine) {
 		// an accessor that rewrites the shared payload makes every later read of those registers return something that
@@ -549,7 +558,9 @@ func run(tier string, shard, nsh int, res *ev.Result) {
 	// the view's default order set more than once: only the last WithByteOrder counts
 	jobs = append(jobs, func(lc *local) {
 		for _, prior := range [][]uint8{{spec.OrdLE}, {spec.OrdLE | spec.OrdLowWordFirst}, {spec.OrdBE | spec.OrdLowWordFirst}, {spec.OrdLE, spec.OrdBE | spec.OrdLowWordFirst}} {
-			for _, def := range orders7 {
+			// (a bare word-order flag as the final default: no byte order is named, so the bytes are read big-endian whatever
+			// the view's default was before - the result is determined by the LAST setting alone)
+			for _, def := range append(append([]uint8{}, orders7...), spec.OrdLowWordFirst, spec.OrdHighWordFirst) {
 				w := newWindowFrom(100, 6, false, def, payload(6, false), res, prior...)
 				if w == nil {
 					return
@@ -645,7 +656,10 @@ func replay(check string, raw json.RawMessage, res *ev.Result) {
 		def = 0
 	}
 	w := newWindow(c.Start, c.Count, c.Poisoned, def, res)
-	if len(c.Prior) > 0 {
+	if c.BareDefault {
+		def &^= spec.OrdBE
+	}
+	if len(c.Prior) > 0 || c.BareDefault {
 		w = newWindowFrom(c.Start, c.Count, c.Poisoned, def, payload(c.Count, c.Poisoned), res, c.Prior...)
 	}
 	if c.Data != "" {
